@@ -319,3 +319,102 @@ for _op, _n in (('sum', 1), ('prod', 1), ('sum', 2)):
     _c.name = 'layouts_' + _c.name
     _c.route = 'block-layout independence of ' + _c.route
     _add(_c)
+
+
+# ---------------------------------------------------------------- every layout at once: column KINDS symbolic, keyed operations
+
+KIND_OPS = [
+    ('consolidate', lambda f, k, xp: f.consolidate() if hasattr(f, 'consolidate') and not hasattr(f.consolidate, 'iloc') else f.__class__(f._blocks.consolidate(), index=f.index, columns=f.columns)),
+    ('iloc_cols', lambda f, k, xp: f.iloc[:, k]), ('iloc_rows_cols', lambda f, k, xp: f.iloc[::-1, k]), ('iloc_row', lambda f, k, xp: f.iloc[1, k]),
+    ('drop_cols', lambda f, k, xp: f.drop.iloc[:, k]), ('mask_cols', lambda f, k, xp: f.mask.iloc[0, k]),
+    ('assign_cols', lambda f, k, xp: f.assign.iloc[1, k](-7)), ('astype_cols', lambda f, k, xp: f.astype.iloc[:, k](float) if False else f.astype[f.columns.values[k].tolist() if not isinstance(f.columns.values[k], str) else f.columns.values[k]](float)),
+    ('shift_cols', lambda f, k, xp: f.shift(0, 1, fill_value=-1)), ('roll_cols', lambda f, k, xp: f.roll(1, -1, include_index=True, include_columns=True)),
+    ('transpose', lambda f, k, xp: f.transpose()), ('add_scalar', lambda f, k, xp: f.iloc[:, k] * 2), ('eq_scalar', lambda f, k, xp: f == 3),
+    ('to_pairs', lambda f, k, xp: f.to_pairs(0)), ('iter_tuple', lambda f, k, xp: tuple(tuple(t) for t in f.iter_tuple(axis=1))),
+    ('dtypes', lambda f, k, xp: f.dtypes), ('iter_series0', lambda f, k, xp: tuple(s.values.tolist() for s in f.iter_series(axis=0))),
+    ('isin', lambda f, k, xp: f.isin((3, 1.5, True))), ('clip_none', lambda f, k, xp: f.iloc[:, k].head(1)),
+    ('sort_cols_desc', lambda f, k, xp: f.sort_columns(ascending=False)), ('reindex_cols', lambda f, k, xp: f.reindex(columns=['d', 'b', 'zz'], fill_value=-1)),
+    ('rename_insert', lambda f, k, xp: f.insert_after('b', f['a'].rename('new'))),
+]
+COL_KEYS4 = (slice(1, 3), slice(None, None, -1), [2, 0], [True, False, True, True])
+BINOP_OPS = [('add_frame', lambda f, k, xp: f + f.iloc[:, k]), ('lt_frame', lambda f, k, xp: f.iloc[:, k] < f)]
+K4 = (('int64', (3, 4)), ('float64', (1.5, 2.5)), ('bool', (True, False)))
+
+
+def _lays_for(kinds):
+    out = []
+    for lay in layouts.compositions(len(kinds)):
+        j, ok = 0, True
+        for nd, w in lay:
+            if len(set(kinds[j:j + w])) > 1:
+                ok = False
+            j += w
+        if ok:
+            out.append(lay)
+    return out
+
+
+def mk_kinds_all_layouts(group, tier='quick', pre=(), suffix='', part='all'):
+    ops = {'select': KIND_OPS[0:4], 'update': KIND_OPS[4:8], 'retype': KIND_OPS[8:13], 'views': KIND_OPS[13:18], 'relabel': KIND_OPS[18:], 'binop': BINOP_OPS}[group]
+
+    def body(env, k1, k2, k3, ck):
+        from vf import rt
+        kinds = [0]
+        for k in (k1, k2, k3):
+            for c in range(3):
+                if k == c:
+                    kinds.append(c)
+        key = None
+        for i, kk in enumerate(COL_KEYS4):
+            if ck == i:
+                key = kk
+
+        def run():
+            sf = env.sf
+            from static_frame.core.type_blocks import TypeBlocks
+            xp = env.xp
+            cols = [list(K4[k][1]) for k in kinds]
+            for c in range(4):      # make the cells of equal-kind columns differ
+                if kinds[c] == 0:
+                    cols[c] = [3 + 10 * c, 4 + 10 * c]
+                elif kinds[c] == 1:
+                    cols[c] = [1.5 + c, 2.5 + c]
+            dts = [K4[k][0] for k in kinds]
+
+            def results(lay):
+                tb = TypeBlocks.from_blocks(layouts.build_blocks_typed(env, cols, dts, lay))
+                f = sf.Frame(tb, index=[100, 101], columns=['a', 'b', 'c', 'd'], name='nm')
+                lib_key = env.array(list(key), 'bool') if (isinstance(key, list) and isinstance(key[0], bool)) else key
+                out = []
+                for name, fn in ops:
+                    try:
+                        r = fn(f, lib_key, xp)
+                        o = obs_frame(env, r) if not isinstance(r, tuple) else env.obs(list(r))
+                        if part == 'values' and o[0] == 'F':
+                            o = o[:4]            # labels and cells
+                        elif part == 'dtypes' and o[0] == 'F':
+                            o = ['F', o[4]]      # per-column dtype kinds only
+                        out.append([name, o])
+                    except Exception as e:  # noqa: BLE001
+                        out.append([name, 'raises', type(e).__name__])
+                return out
+            can = results(canonical(4))
+            lays = _lays_for(kinds)
+            got = [results(lay) for lay in lays]
+            return got, [can] * len(lays)
+        return rt.untraced(run)
+    return Cond(f'frame_ops_all_layouts_kinds_{group}{suffix}', [('k1', 'int'), ('k2', 'int'), ('k3', 'int'), ('ck', 'int')], body,
+            ranges={'k1': (0, 2), 'k2': (0, 1), 'k3': (0, 2), 'ck': (0, len(COL_KEYS4) - 1)}, pre=list(pre),
+            functions=['TypeBlocks._extract', 'TypeBlocks._drop_blocks'] if group == 'select' else [],
+            bounds=f'2x4 frame; column kinds symbolic over (int64, float64[, bool]); column key symbolic over {COL_KEYS4}; EVERY block layout that can hold the kinds against one block per column; operations: ' + ', '.join(n for n, _ in ops),
+            route='keyed and whole-frame operations on mixed column kinds: values, labels, per-column dtype kinds and raised error class equal across all block layouts', tier=tier, timeout=600)
+
+
+for _g in ('select', 'update', 'retype', 'views', 'relabel'):
+    _add(mk_kinds_all_layouts(_g))
+# Frame op Frame: labels and cells are decided here; the per-column DTYPES of the result depend on whether the two operands'
+# blockings are compatible (incompatible blockings are consolidated to the row dtype first): finding F31, isolated below
+_add(mk_kinds_all_layouts('binop', part='values', suffix='_values', pre=['k1 != 2 and k3 != 2']))
+# (with a bool column the consolidated object arithmetic also changes VALUES: True + True is True in a bool block, 2 as objects)
+_add(mk_kinds_all_layouts('binop', part='values', suffix='_values_bool_finding', pre=['k1 == 2 or k3 == 2']))
+_add(mk_kinds_all_layouts('binop', part='dtypes', suffix='_dtypes_finding'))
